@@ -1032,6 +1032,10 @@ struct Scanner : RecursiveASTVisitor<Scanner> {
          f["ref"] = F->getType()->isReferenceType();
          f["const"] = F->getType().isConstQualified();
          f["ln"] = (int64_t)lineOf(F->getLocation());
+         if (F->isBitField() and !F->getBitWidth()->isValueDependent()) {
+            f["bits"] = (int64_t)F->getBitWidthValue(*C.AC);
+            f["signed"] = F->getType()->isSignedIntegerOrEnumerationType();
+         }
          if (F->hasInClassInitializer() and F->getInClassInitializer()) {
             BodyWriter W(nullptr_fn());
             f["init"] = W.X(F->getInClassInitializer());
